@@ -85,25 +85,18 @@ impl Skeleton {
         let raw_animation_container = root.find_object_by_type("hkaAnimationContainer");
         let animation_container = HavokAnimationContainer::new(raw_animation_container);
 
-        let havok_skeleton = &animation_container.skeletons[0];
+        let havok_skeleton = animation_container.skeletons.first()?;
 
         let mut skeleton = Skeleton { bones: vec![] };
 
         for (index, bone) in havok_skeleton.bone_names.iter().enumerate() {
+            let pose = havok_skeleton.reference_pose.get(index)?;
             skeleton.bones.push(Bone {
                 name: bone.clone(),
-                parent_index: havok_skeleton.parent_indices[index] as i32,
-                position: [
-                    havok_skeleton.reference_pose[index].translation[0],
-                    havok_skeleton.reference_pose[index].translation[1],
-                    havok_skeleton.reference_pose[index].translation[2],
-                ],
-                rotation: havok_skeleton.reference_pose[index].rotation,
-                scale: [
-                    havok_skeleton.reference_pose[index].scale[0],
-                    havok_skeleton.reference_pose[index].scale[1],
-                    havok_skeleton.reference_pose[index].scale[2],
-                ],
+                parent_index: *havok_skeleton.parent_indices.get(index)? as i32,
+                position: [pose.translation[0], pose.translation[1], pose.translation[2]],
+                rotation: pose.rotation,
+                scale: [pose.scale[0], pose.scale[1], pose.scale[2]],
             });
         }
 
